@@ -77,7 +77,31 @@ func Mutate(r *rand.Rand, seed []byte, nodes []*tlvwalk.Node) ([]byte, string) {
 		return b, "random"
 	}
 	n := nodes[r.Intn(len(nodes))]
-	switch r.Intn(14) {
+	switch r.Intn(19) {
+	case 14, 15, 16, 17, 18: // consistent edits: the element changes and every enclosing length is recomputed,
+		// so the parser gets past the outer layers and meets the odd element itself
+		var repl []byte
+		cls := ""
+		switch r.Intn(6) {
+		case 0:
+			repl, cls = tlvwalk.TLV(n.Type, nil), "c-empty-value"
+		case 1:
+			repl, cls = nil, "c-delete"
+		case 2:
+			el := seed[n.Off:n.End]
+			repl, cls = append(append([]byte{}, el...), el...), "c-duplicate"
+		case 3:
+			v := make([]byte, r.Intn(40))
+			r.Read(v)
+			repl, cls = tlvwalk.TLV(n.Type, v), "c-value-resized"
+		case 4:
+			o := nodes[r.Intn(len(nodes))]
+			repl, cls = tlvwalk.TLV(o.Type, seed[n.ValOff:n.End]), "c-type-swap"
+		default:
+			o := nodes[r.Intn(len(nodes))]
+			repl, cls = append(append([]byte{}, seed[n.Off:n.End]...), seed[o.Off:o.End]...), "c-insert-other"
+		}
+		return Reserialize(seed, nodes, n, repl), cls
 	case 13: // the element is replaced, size-preserving, by an unknown element whose 9-byte length
 		// is a small negative number when converted to a signed integer (2^64-k)
 		size := n.End - n.Off
@@ -152,4 +176,66 @@ func Mutate(r *rand.Rand, seed []byte, nodes []*tlvwalk.Node) ([]byte, string) {
 		}
 		return splice(seed, n.Off+n.TLen, n.ValOff, tlvwalk.AppendVar(nil, uint64(nl))), "length-disagree"
 	}
+}
+
+// Reserialize returns seed with the encoding of target replaced by repl and the length of every
+// enclosing element recomputed (shortest form). nodes is the flat list returned by Nodes.
+func Reserialize(seed []byte, nodes []*tlvwalk.Node, target *tlvwalk.Node, repl []byte) []byte {
+	parent := map[*tlvwalk.Node]*tlvwalk.Node{}
+	for _, x := range nodes {
+		var best *tlvwalk.Node
+		for _, m := range nodes {
+			if m != x && m.ValOff <= x.Off && x.End <= m.End && !(m.Off == x.Off && m.End == x.End) {
+				if best == nil || (m.End-m.Off) < (best.End-best.Off) {
+					best = m
+				}
+			}
+		}
+		parent[x] = best
+	}
+	kids := map[*tlvwalk.Node][]*tlvwalk.Node{}
+	var tops []*tlvwalk.Node
+	for _, x := range nodes {
+		if p := parent[x]; p != nil {
+			kids[p] = append(kids[p], x)
+		} else {
+			tops = append(tops, x)
+		}
+	}
+	var ser func(x *tlvwalk.Node) []byte
+	ser = func(x *tlvwalk.Node) []byte {
+		if x == target {
+			return repl
+		}
+		ks := kids[x]
+		if len(ks) == 0 {
+			return seed[x.Off:x.End]
+		}
+		var val []byte
+		pos := x.ValOff
+		for _, k := range ks { // kids are in offset order (pre-order list)
+			if k.Off > pos {
+				val = append(val, seed[pos:k.Off]...)
+			}
+			val = append(val, ser(k)...)
+			pos = k.End
+		}
+		if pos < x.End {
+			val = append(val, seed[pos:x.End]...)
+		}
+		return tlvwalk.TLV(x.Type, val)
+	}
+	var out []byte
+	pos := 0
+	for _, t := range tops {
+		if t.Off > pos {
+			out = append(out, seed[pos:t.Off]...)
+		}
+		out = append(out, ser(t)...)
+		pos = t.End
+	}
+	if pos < len(seed) {
+		out = append(out, seed[pos:]...)
+	}
+	return out
 }
